@@ -1,7 +1,8 @@
 package main
 
-// Independent Go port of Spec.SqlLex (lean/PgVerif/Spec/SqlLex.lean): PostgreSQL's lexer with
-// standard_conforming_strings = on, failing (ok = false) on everything the Lean definition refuses.
+// Independent Go port of Spec.SqlLex (lean/PgVerif/Spec/SqlLex.lean): PostgreSQL's lexer restricted to text that
+// reads the same with standard_conforming_strings on and off, failing (ok = false) on everything the Lean definition
+// refuses (in particular a plain '...' constant containing a backslash).
 
 import "bytes"
 
@@ -23,7 +24,7 @@ type tok struct {
 	text []byte
 }
 
-func isSpace(c byte) bool      { return c == ' ' || c == '\t' || c == '\n' || c == '\r' || c == '\f' || c == '\v' }
+func isSpace(c byte) bool      { return c == ' ' || c == '\t' || c == '\n' || c == '\r' || c == '\f' }
 func isNewline(c byte) bool    { return c == '\n' || c == '\r' }
 func isDigit(c byte) bool      { return c >= '0' && c <= '9' }
 func isIdentStart(c byte) bool { return c >= 'A' && c <= 'Z' || c >= 'a' && c <= 'z' || c == '_' || c >= 128 }
@@ -47,6 +48,60 @@ func scanQuoted(s []byte, i int, q byte) ([]byte, int, bool) {
 		i++
 	}
 	return nil, 0, false
+}
+
+// scanEscaped: body of E'...' — s[i] is the byte after the opening quote; '' is a quote, \\ a backslash, every other
+// backslash sequence is refused
+func scanEscaped(s []byte, i int) ([]byte, int, bool) {
+	var out []byte
+	for i < len(s) {
+		switch {
+		case s[i] == '\'':
+			if i+1 < len(s) && s[i+1] == '\'' {
+				out = append(out, '\'')
+				i += 2
+				continue
+			}
+			return out, i + 1, true
+		case s[i] == '\\':
+			if i+1 < len(s) && s[i+1] == '\\' {
+				out = append(out, '\\')
+				i += 2
+				continue
+			}
+			return nil, 0, false
+		default:
+			out = append(out, s[i])
+			i++
+		}
+	}
+	return nil, 0, false
+}
+
+// contAfterString: white space and -- comments containing a newline, then a quote (string continuation)
+func contAfterString(s []byte, k int) bool {
+	nl := false
+	for k < len(s) {
+		switch {
+		case isSpace(s[k]):
+			nl = nl || isNewline(s[k])
+			k++
+		case s[k] == '\'':
+			return nl
+		case s[k] == '-' && k+1 < len(s) && s[k+1] == '-':
+			for k < len(s) && !isNewline(s[k]) {
+				k++
+			}
+			if k >= len(s) {
+				return false
+			}
+			nl = true
+			k++
+		default:
+			return false
+		}
+	}
+	return false
 }
 
 func lexSQL(s []byte) ([]tok, bool) {
@@ -93,14 +148,8 @@ func lexSQL(s []byte) ([]tok, bool) {
 			if !ok {
 				return nil, false
 			}
-			// string continuation: white space with a newline, then another quote
-			k := j
-			nl := false
-			for k < len(s) && isSpace(s[k]) {
-				nl = nl || isNewline(s[k])
-				k++
-			}
-			if nl && k < len(s) && s[k] == '\'' {
+			// a backslash in a plain constant is read differently with standard_conforming_strings on and off
+			if bytes.IndexByte(body, '\\') >= 0 || contAfterString(s, j) {
 				return nil, false
 			}
 			out = append(out, tok{tStr, body})
@@ -186,7 +235,16 @@ func lexSQL(s []byte) ([]tok, bool) {
 				}
 				w[k-i] = b
 			}
-			if j < len(s) && s[j] == '\'' && len(w) == 1 && bytes.IndexByte([]byte("ebxn"), w[0]) >= 0 {
+			if j < len(s) && s[j] == '\'' && len(w) == 1 && w[0] == 'e' {
+				body, k, ok := scanEscaped(s, j+1)
+				if !ok || contAfterString(s, k) {
+					return nil, false
+				}
+				out = append(out, tok{tStr, body})
+				i = k
+				break
+			}
+			if j < len(s) && s[j] == '\'' && len(w) == 1 && bytes.IndexByte([]byte("bxn"), w[0]) >= 0 {
 				return nil, false
 			}
 			if j < len(s) && s[j] == '&' && len(w) == 1 && w[0] == 'u' {
